@@ -31,6 +31,8 @@ const (
 	TargetJSONRule = 1
 	TargetJSONFact = 2
 	TargetGRB      = 3
+	// TargetJSONTranslate runs only the JSON -> GRL translation (JSONResource.Load), without building
+	TargetJSONTranslate = 4
 )
 
 func run(target byte, data []byte) (status, detail string) {
@@ -60,6 +62,15 @@ func run(target byte, data []byte) (status, detail string) {
 		err = builder.NewRuleBuilder(lib).BuildRuleFromResource("c", "1", res)
 		if err != nil {
 			return "error", "json-or-build"
+		}
+		return "ok", ""
+	case TargetJSONTranslate:
+		res, err := pkg.NewJSONResourceFromResource(pkg.NewBytesResource(data))
+		if err != nil {
+			return "error", "resource"
+		}
+		if _, err := res.Load(); err != nil {
+			return "error", "json"
 		}
 		return "ok", ""
 	case TargetJSONFact:
